@@ -234,6 +234,34 @@ pub fn decorate(source: &str, rng: &mut Rng) -> String {
             }
         }
     }
+    // generics: a where clause, inline bounds, defaults (every part of the item has to survive the stripping, not
+    // only the attributes)
+    if rng.chance(1, 3) {
+        let mut preds: Vec<String> = Vec::new();
+        for p in item.generics.params.iter() {
+            match p {
+                syn::GenericParam::Type(t) => preds.push(format!("{}: {}", t.ident, rng.pick(&["Clone", "Sized", "core::fmt::Debug + Clone", "AsRef<str>"]))),
+                syn::GenericParam::Lifetime(l) => preds.push(format!("{0}: {0}", l.lifetime.to_token_stream())),
+                syn::GenericParam::Const(_) => {}
+            }
+        }
+        if preds.is_empty() || rng.chance(1, 4) {
+            preds.push("u8: Copy".to_string());
+        }
+        let trailing = if rng.chance(1, 2) { "," } else { "" };
+        if let Ok(w) = syn::parse_str::<syn::WhereClause>(&format!("where {}{}", preds.join(", "), trailing)) {
+            item.generics.where_clause = Some(w);
+        }
+    }
+    if rng.chance(1, 6) {
+        for p in item.generics.params.iter_mut() {
+            if let syn::GenericParam::Type(t) = p {
+                if t.bounds.is_empty() {
+                    t.bounds.push(syn::parse_str("Clone").unwrap());
+                }
+            }
+        }
+    }
     // 2. variants and fields
     for v in item.variants.iter_mut() {
         if rng.chance(1, 4) {
